@@ -200,7 +200,7 @@ func NewWorld(x *vexp.X, opts ...vivid.ActorSystemOption) *World {
 		w.seq++
 		w.Handled = append(w.Handled, Handled{Seq: w.seq, Path: c.Ref().GetPath(), Type: t, Detail: d, System: env.System(), Ctx: c})
 		if Verbose {
-			x.Logf("handle %s <- %s(%s) sys=%v state=%d", c.Ref().GetPath(), t, d, env.System(), actor.VerifCtx(c).State)
+			x.Logf("@%dms %s handle %s <- %s(%s) sys=%v state=%d", vrt.Now()/1000000, c.Ref().GetAddress(), c.Ref().GetPath(), t, d, env.System(), actor.VerifCtx(c).State)
 		}
 	})
 	vrt.Tap("mailbox.(*UnboundedMailbox).Enqueue", func(args ...any) {
@@ -228,7 +228,11 @@ func NewWorld(x *vexp.X, opts ...vivid.ActorSystemOption) *World {
 			w.RestartedPending[p.Ref] = true
 		}
 		if !w.Quiet || verbose {
-			x.Logf("pub %s %s", p.Type, d)
+			if verbose {
+				x.Logf("@%dms %s pub %s %s", vrt.Now()/1000000, ctx.Ref().GetAddress(), p.Type, d)
+			} else {
+				x.Logf("pub %s %s", p.Type, d)
+			}
 		}
 	})
 	all := append([]vivid.ActorSystemOption{vivid.WithActorSystemLogger(Silent)}, opts...)
